@@ -1,9 +1,9 @@
 (* C06 (LMDB half): which acknowledgements of LMDBStorage.add_event are truthful.
-   The writer runs after the acknowledgement; with the admission-side checks (already stored ->
-   duplicate; not storable -> refused) an acknowledged event is stored by its transaction unless the
-   ENGINE fails (kv_engine_failure_after_ack) or the same id is submitted again while its first
-   "add" is still queued (kv_duplicate_in_flight): these two classes are open findings. *)
-From NR Require Import KVW.Thm_Common.
+   The writer runs after the acknowledgement.  With the admission-side checks (stored or already
+   queued -> duplicate; not storable -> refused) every acknowledged event is stored by its own
+   transaction, in every interleaving of submissions and writer steps, unless the ENGINE fails in
+   that transaction (kv_engine_failure_after_ack: the one open class). *)
+From NR Require Import Lib.BaseFacts KVW.Thm_Common KVW.Queue.
 Open Scope list_scope. Open Scope Z_scope.
 
 Section Ack.
@@ -12,83 +12,209 @@ Variable valid : wevent -> bool.
 Hypothesis valid_hex : forall w, valid w = true -> hex64 (w_id w) = true /\ hex64 (w_pubkey w) = true.
 
 (* (d) a refusal leaves no trace: nothing is queued, nothing is broadcast *)
-Theorem C06_kv_refused_no_trace now d raw b q : add_event valid now d raw = (AckRaise, b, q) -> b = false /\ q = None.
+Theorem C06_kv_refused_no_trace now d p raw b q : add_event valid now d p raw = (AckRaise, b, q) -> b = false /\ q = None.
 Proof.
   unfold add_event. destruct (valid _); simpl; [|intros H; injection H as <- <-; auto].
   destruct (is_ephemeral_kind _); [discriminate|]. destruct (storable _); simpl; [|intros H; injection H as <- <-; auto].
-  destruct (id_bytes _); [|intros H; injection H as <- <-; auto]. destruct (get _ d) as [[|r]|]; discriminate.
+  destruct (id_bytes _); [|intros H; injection H as <- <-; auto]. destruct (mem_str _ p); [discriminate|].
+  destruct (get _ d) as [[|r]|]; discriminate.
 Qed.
-(* (e) resubmitting a stored event: answered as a duplicate, nothing queued, nothing broadcast *)
-Theorem C06_kv_duplicate now d raw idb e : valid (ctor now raw) = true -> is_ephemeral_kind (w_kind (ctor now raw)) = false ->
-  storable (ctor now raw) = true -> id_bytes (ctor now raw) = Some idb -> rec_at d idb = Some e ->
-  add_event valid now d raw = (AckDuplicate, false, None).
+(* (e) resubmitting an event that is stored, or whose add is still queued: duplicate, nothing queued, nothing broadcast *)
+Theorem C06_kv_duplicate now d p raw idb : valid (ctor now raw) = true -> is_ephemeral_kind (w_kind (ctor now raw)) = false ->
+  storable (ctor now raw) = true -> id_bytes (ctor now raw) = Some idb ->
+  (exists e, rec_at d idb = Some e) \/ In (w_id (ctor now raw)) p ->
+  add_event valid now d p raw = (AckDuplicate, false, None).
 Proof.
-  intros V E S Hid R. unfold add_event. rewrite V, E, S, Hid. simpl. apply rec_at_some in R. rewrite R. reflexivity.
+  intros V E S Hid H. unfold add_event. rewrite V, E, S, Hid. simpl. destruct (mem_str _ p) eqn:M; [reflexivity|].
+  destruct H as [[e R]|I]; [apply rec_at_some in R; rewrite R; reflexivity|].
+  apply mem_str_In in I. congruence.
 Qed.
-Theorem C06_kv_duplicate_only_if_stored now d raw b q : add_event valid now d raw = (AckDuplicate, b, q) ->
-  b = false /\ q = None /\ exists idb e, id_bytes (ctor now raw) = Some idb /\ rec_at d idb = Some e.
+Theorem C06_kv_duplicate_only_if_known now d p raw b q : add_event valid now d p raw = (AckDuplicate, b, q) ->
+  b = false /\ q = None /\ exists idb, id_bytes (ctor now raw) = Some idb /\
+                                      ((exists e, rec_at d idb = Some e) \/ In (w_id (ctor now raw)) p).
 Proof.
   unfold add_event. destruct (valid _); simpl; [|discriminate]. destruct (is_ephemeral_kind _); [discriminate|].
   destruct (storable _); simpl; [|discriminate]. destruct (id_bytes _) as [idb|]; [|discriminate].
-  destruct (get _ d) as [[|r]|] eqn:G; try discriminate. intros H. injection H as <- <-. split; [reflexivity|]. split; [reflexivity|].
-  exists idb, r. split; [reflexivity|]. apply rec_at_some, G.
+  destruct (mem_str _ p) eqn:M.
+  - intros H. injection H as <- <-. split; [reflexivity|]. split; [reflexivity|]. exists idb. split; [reflexivity|].
+    right. apply mem_str_In, M.
+  - destruct (get _ d) as [[|r]|] eqn:G; try discriminate. intros H. injection H as <- <-. split; [reflexivity|]. split; [reflexivity|].
+    exists idb. split; [reflexivity|]. left. exists r. apply rec_at_some, G.
 Qed.
-(* (c) a valid, storable event that is not stored is never refused *)
-Theorem C06_kv_valid_accepted now d raw idb : valid (ctor now raw) = true -> is_ephemeral_kind (w_kind (ctor now raw)) = false ->
-  storable (ctor now raw) = true -> id_bytes (ctor now raw) = Some idb -> rec_at d idb = None ->
-  add_event valid now d raw = (AckTrue, true, Some (OAdd (ctor now raw))).
+(* (c) a valid, storable event that is neither stored nor queued is never refused *)
+Theorem C06_kv_valid_accepted now d p raw idb : valid (ctor now raw) = true -> is_ephemeral_kind (w_kind (ctor now raw)) = false ->
+  storable (ctor now raw) = true -> id_bytes (ctor now raw) = Some idb -> rec_at d idb = None -> ~ In (w_id (ctor now raw)) p ->
+  add_event valid now d p raw = (AckTrue, true, Some (OAdd (ctor now raw))).
 Proof.
-  intros V E S Hid R. unfold add_event. rewrite V, E, S, Hid. simpl. unfold rec_at in R.
+  intros V E S Hid R N. unfold add_event. rewrite V, E, S, Hid. simpl.
+  destruct (mem_str _ p) eqn:M; [apply mem_str_In in M; contradiction|]. unfold rec_at in R.
   destruct (get (primary_key_of idb) d) as [[|r]|]; try reflexivity. discriminate.
 Qed.
 
-(* (b) OK=true for a non-ephemeral event: the queued "add", run by the writer on the store the
-   acknowledgement was computed from, without an engine failure, commits, and the event is stored
-   (with every index entry: C10) *)
-Theorem C06_kv_ack_true_stored now d raw q : Inv d -> now <> 0 ->
-  add_event valid now d raw = (AckTrue, true, Some q) ->
-  exists w idb r d' ms, q = OAdd w /\ id_bytes w = Some idb /\
-    run_op None None now d q = (d', Committed, ms) /\ encode_event w = Some r /\ rec_at d' idb = Some r /\ Inv d'.
+(* ---- the queue between add_event and the writer thread ---- *)
+Definition queued_ok (d : kvdb) (infl : list pystr) (op : wop) : Prop :=
+  match op with
+  | OAdd w => event_wf w /\ storable w = true /\ In (w_id w) infl /\ exists idb, id_bytes w = Some idb /\ rec_at d idb = None
+  | ODel _ => True
+  | _ => False
+  end.
+(* every queued add is storable, registered in in_flight, of an id that is not stored; queued ids are distinct *)
+Definition QInv (st : sstate) : Prop :=
+  Inv (s_db st) /\ Forall (queued_ok (s_db st) (s_inflight st)) (s_queue st) /\ NoDup (add_ids (s_queue st)).
+
+Theorem C06_kv_qinv_init : QInv (mkS init_db [] []).
+Proof. split; [apply inv_init|]. split; constructor. Qed.
+
+Lemma NoDup_app_single {A} (l : list A) x : NoDup l -> ~ In x l -> NoDup (l ++ [x]).
 Proof.
-  intros [C K] Nz H. pose proof (add_event_op_ok valid now d raw _ _ q valid_hex Nz H) as O.
-  unfold add_event in H. destruct (valid (ctor now raw)) eqn:V; simpl in H; [|discriminate].
-  destruct (is_ephemeral_kind _) eqn:E; [discriminate|]. destruct (storable (ctor now raw)) eqn:S; simpl in H; [|discriminate].
+  intros N H. apply NoDup_rev in N. rewrite <- (rev_involutive (l ++ [x])). apply NoDup_rev. rewrite rev_app_distr. simpl.
+  constructor; [rewrite <- in_rev; exact H|exact N].
+Qed.
+Lemma add_ids_app q1 q2 : add_ids (q1 ++ q2) = add_ids q1 ++ add_ids q2.
+Proof. unfold add_ids. apply flat_map_app. Qed.
+Lemma queued_ids_inflight d infl q : Forall (queued_ok d infl) q -> forall x, In x (add_ids q) -> In x infl.
+Proof.
+  induction 1 as [|op q H F IH]; intros x Hx; [destruct Hx|]. simpl in Hx. apply in_app_or in Hx. destruct Hx as [Hx|Hx]; [|auto].
+  destruct op; try destruct Hx as [<-|[]]; try destruct Hx. apply H.
+Qed.
+Lemma queued_ok_weaken d infl x op : queued_ok d infl op -> queued_ok d (x :: infl) op.
+Proof. destruct op; simpl; auto. intros [A [B [C D]]]. split; [exact A|]. split; [exact B|]. split; [right; exact C|exact D]. Qed.
+
+Theorem C06_kv_qinv_submit now st raw a b st' : now <> 0 -> QInv st -> submit valid now st raw = (a, b, st') -> QInv st'.
+Proof.
+  intros Nz [I [F N]] H. unfold submit in H. destruct (add_event valid now (s_db st) (s_inflight st) raw) as [[a0 b0] q] eqn:E.
+  destruct q as [op|]; [|injection H as _ _ <-; split; [exact I|split; assumption]].
+  pose proof (add_event_op_ok valid now _ _ raw _ _ op valid_hex Nz E) as O.
+  unfold add_event in E. destruct (valid (ctor now raw)) eqn:V; simpl in E; [|discriminate].
+  destruct (is_ephemeral_kind _); [discriminate|]. destruct (storable (ctor now raw)) eqn:S; simpl in E; [|discriminate].
   destruct (id_bytes (ctor now raw)) as [idb|] eqn:Hid; [|discriminate].
-  destruct (get (primary_key_of idb) d) as [[|r0]|] eqn:G; try discriminate.
-  - exfalso. eapply coh_primary_slot; eauto.
-  - injection H as <-. set (w := ctor now raw) in *. simpl in O.
-    assert (R : rec_at d idb = None) by (unfold rec_at; rewrite G; reflexivity).
-    destruct (add_commits scan_ok_holds now w idb {| t_db := d; t_log := [] |} C K O S Hid R) as [t' Ht'].
-    exists w, idb.
-    assert (Hr : exists r, encode_event w = Some r /\ rec_at (t_db t') idb = Some r).
-    { destruct (is_replaceable_kind (w_kind w) || is_param_replaceable_kind (w_kind w)) eqn:Kd.
-      - destruct (add_replaceable scan_ok_holds None now w idb {| t_db := d; t_log := [] |} t' C O Hid R Kd Ht') as [r [Er [_ [Rn _]]]]. eauto.
-      - destruct (Z.eq_dec (w_kind w) 5) as [K5|K5].
-        + destruct (add_deletion scan_ok_holds None now w idb {| t_db := d; t_log := [] |} t' C O Hid R K5 Ht') as [r [Er [_ [Rn _]]]]. eauto.
-        + destruct (add_plain None now w idb {| t_db := d; t_log := [] |} t' C O Hid R Kd K5 Ht') as [r [Er [_ [Rn _]]]]. eauto. }
-    destruct Hr as [r [Er Rn]]. exists r, (t_db t'), (rev (t_log t')).
-    split; [reflexivity|]. split; [exact Hid|]. split; [unfold run_op; rewrite Ht'; reflexivity|]. split; [exact Er|]. split; [exact Rn|].
-    pose proof (inv_step d (mkStep None None now (OAdd w)) (conj C K) O) as I'.
-    unfold run_step, db_after, run_op in I'. cbn [s_fault s_kill s_now s_op] in I'. rewrite Ht' in I'. exact I'.
+  destruct (mem_str (w_id (ctor now raw)) (s_inflight st)) eqn:M; [discriminate|].
+  destruct (get (primary_key_of idb) (s_db st)) as [[|r0]|] eqn:G; try discriminate.
+  - exfalso. destruct I as [C _]. eapply coh_primary_slot; eauto.
+  - injection E as _ _ <-. injection H as _ _ <-. simpl in O. set (w := ctor now raw) in *. unfold QInv. cbn [s_db s_queue s_inflight].
+    split; [exact I|]. split.
+    + apply Forall_app. split.
+      * eapply Forall_impl; [|exact F]. intros op. apply queued_ok_weaken.
+      * constructor; [|constructor]. simpl. split; [exact O|]. split; [exact S|]. split; [left; reflexivity|].
+        exists idb. split; [exact Hid|]. unfold rec_at. rewrite G. reflexivity.
+    + rewrite add_ids_app. change (add_ids [OAdd w]) with [w_id w]. apply NoDup_app_single; [exact N|].
+      intros Hin. apply (queued_ids_inflight _ _ _ F) in Hin. apply mem_str_In in Hin. congruence.
+Qed.
+Theorem C06_kv_qinv_enqueue_del st h : QInv st -> QInv (enqueue_del st h).
+Proof.
+  intros [I [F N]]. unfold enqueue_del, QInv. cbn [s_db s_queue s_inflight]. split; [exact I|]. split.
+  - apply Forall_app. split; [exact F|]. constructor; [exact Logic.I|constructor].
+  - rewrite add_ids_app. change (add_ids [ODel h]) with (@nil pystr). rewrite app_nil_r. exact N.
+Qed.
+
+(* a transaction never makes a record appear under another id than the one it adds *)
+Lemma odel_no_new fault kill now d h x e : Coh d -> rec_at (db_after fault kill now d (ODel h)) x = Some e -> rec_at d x = Some e.
+Proof.
+  intros C. unfold db_after, run_op. destruct (op_body fault now (ODel h) {| t_db := d; t_log := [] |}) as [[] t'|l] eqn:E; [|auto].
+  destruct (killed kill (t_log t')); [auto|]. cbn [fst]. simpl in E.
+  apply bind_ok in E. destruct E as [idb [t1 [H1 E]]]. apply of_opt_ok in H1. destruct H1 as [_ ->].
+  apply bind_ok in E. destruct E as [c [t2 [H2 E]]]. destruct c as [c|].
+  - apply coh_candidate in H2; [|exact C]. destruct H2 as [-> G]. apply rec_at_some in G.
+    destruct (delete_rec fault idb c {| t_db := d; t_log := [] |} t' C G E) as [_ [R0 Ro]]. intros R.
+    destruct (bytes_dec x idb) as [->|Nx]; [congruence|]. rewrite (Ro x Nx) in R. exact R.
+  - apply m_candidate_ok in H2. destruct H2 as [-> _]. apply ret_ok in E. destruct E as [_ ->]. auto.
+Qed.
+Lemma oadd_no_new fault kill now d w idb x e : Coh d -> event_wf w -> id_bytes w = Some idb -> rec_at d idb = None ->
+  x <> idb -> rec_at (db_after fault kill now d (OAdd w)) x = Some e -> rec_at d x = Some e.
+Proof.
+  intros C W Hid R Nx. unfold db_after, run_op. destruct (op_body fault now (OAdd w) {| t_db := d; t_log := [] |}) as [[] t'|l] eqn:E; [|auto].
+  destruct (killed kill (t_log t')); [auto|]. cbn [fst].
+  destruct (is_replaceable_kind (w_kind w) || is_param_replaceable_kind (w_kind w)) eqn:Kd.
+  - destruct (add_replaceable scan_ok_holds fault now w idb {| t_db := d; t_log := [] |} t' C W Hid R Kd E) as [r [_ [_ [_ [A _]]]]]. apply A, Nx.
+  - destruct (Z.eq_dec (w_kind w) 5) as [K5|K5].
+    + destruct (add_deletion scan_ok_holds fault now w idb {| t_db := d; t_log := [] |} t' C W Hid R K5 E) as [r [_ [_ [_ [A _]]]]]. apply A, Nx.
+    + destruct (add_plain fault now w idb {| t_db := d; t_log := [] |} t' C W Hid R Kd K5 E) as [r [_ [_ [_ A]]]]. rewrite (A x Nx). auto.
+Qed.
+Lemma wf_id_bytes_inj w1 w2 idb : event_wf w1 -> event_wf w2 -> id_bytes w1 = Some idb -> id_bytes w2 = Some idb -> w_id w1 = w_id w2.
+Proof.
+  intros [H1 _] [H2 _] E1 E2. destruct (hex64_bytes _ H1) as [b1 [A1 [_ X1]]]. destruct (hex64_bytes _ H2) as [b2 [A2 [_ X2]]].
+  unfold id_bytes in *. congruence.
+Qed.
+Lemma remove_str_In x y l : In y l -> y <> x -> In y (remove_str x l).
+Proof. intros H N. unfold remove_str. apply filter_In. split; [exact H|]. apply negb_true_iff. apply str_eqb_neq. congruence. Qed.
+
+(* the writer processes the head of the queue: any ending of its transaction *)
+Theorem C06_kv_qinv_writer_step fault kill now st : QInv st -> QInv (writer_step fault kill now st).
+Proof.
+  intros [I [F N]]. unfold writer_step. destruct (s_queue st) as [|op q] eqn:Q; [split; [exact I|rewrite Q; split; assumption]|].
+  unfold QInv. cbn [s_db s_queue s_inflight]. try rewrite Q in F; try rewrite Q in N. inversion F as [|? ? Hop Fq]; subst. destruct I as [C K].
+  destruct op as [w|h|i w|i ws]; simpl in Hop; try contradiction.
+  - destruct Hop as [W [S [Iw [idb [Hid R]]]]].
+    split; [apply (inv_step (s_db st) (mkStep fault kill now (OAdd w)) (conj C K)); exact W|]. simpl in N. inversion N as [|? ? Nw Nq]; subst.
+    split; [|exact Nq]. rewrite Forall_forall in *. intros op Hin. specialize (Fq op Hin). destruct op as [w2|h2| |]; simpl in *; auto.
+    destruct Fq as [W2 [S2 [I2 [idb2 [Hid2 R2]]]]].
+    assert (Nid : w_id w2 <> w_id w).
+    { intros E. apply Nw. rewrite <- E. unfold add_ids. apply in_flat_map. exists (OAdd w2). split; [exact Hin|left; reflexivity]. }
+    split; [exact W2|]. split; [exact S2|]. split; [apply remove_str_In; assumption|]. exists idb2. split; [exact Hid2|].
+    destruct (rec_at (db_after fault kill now (s_db st) (OAdd w)) idb2) as [e|] eqn:R'; [|reflexivity]. exfalso.
+    assert (Nb : idb2 <> idb). { intros ->. apply Nid. eapply wf_id_bytes_inj; eauto. }
+    pose proof (oadd_no_new fault kill now (s_db st) w idb idb2 e C W Hid R Nb R'). congruence.
+  - split; [apply (inv_step (s_db st) (mkStep fault kill now (ODel h)) (conj C K)); exact Logic.I|]. split; [|exact N].
+    rewrite Forall_forall in *. intros op Hin. specialize (Fq op Hin). destruct op as [w2|h2| |]; simpl in *; auto.
+    destruct Fq as [W2 [S2 [I2 [idb2 [Hid2 R2]]]]]. split; [exact W2|]. split; [exact S2|]. split; [exact I2|]. exists idb2. split; [exact Hid2|].
+    destruct (rec_at (db_after fault kill now (s_db st) (ODel h)) idb2) as [e|] eqn:R'; [|reflexivity]. exfalso.
+    pose proof (odel_no_new fault kill now (s_db st) h idb2 e C R'). congruence.
+Qed.
+
+(* (b) OK=true is truthful in every interleaving: when the writer reaches the queued add - whatever
+   was submitted, queued or written in between - and the engine does not fail in that transaction, the
+   transaction commits and the event is stored, with every index entry (C10) *)
+Theorem C06_kv_ack_true_stored now st w q : QInv st -> s_queue st = OAdd w :: q ->
+  exists idb r d' ms, id_bytes w = Some idb /\ encode_event w = Some r /\
+    run_op None None now (s_db st) (OAdd w) = (d', Committed, ms) /\
+    s_db (writer_step None None now st) = d' /\ rec_at d' idb = Some r.
+Proof.
+  intros [[C K] [F _]] Q. rewrite Q in F. inversion F as [|? ? Hop _]; subst. simpl in Hop.
+  destruct Hop as [W [S [_ [idb [Hid R]]]]].
+  destruct (add_commits scan_ok_holds now w idb {| t_db := s_db st; t_log := [] |} C K W S Hid R) as [t' Ht'].
+  assert (Hr : exists r, encode_event w = Some r /\ rec_at (t_db t') idb = Some r).
+  { destruct (is_replaceable_kind (w_kind w) || is_param_replaceable_kind (w_kind w)) eqn:Kd.
+    - destruct (add_replaceable scan_ok_holds None now w idb {| t_db := s_db st; t_log := [] |} t' C W Hid R Kd Ht') as [r [Er [_ [Rn _]]]]. eauto.
+    - destruct (Z.eq_dec (w_kind w) 5) as [K5|K5].
+      + destruct (add_deletion scan_ok_holds None now w idb {| t_db := s_db st; t_log := [] |} t' C W Hid R K5 Ht') as [r [Er [_ [Rn _]]]]. eauto.
+      + destruct (add_plain None now w idb {| t_db := s_db st; t_log := [] |} t' C W Hid R Kd K5 Ht') as [r [Er [_ [Rn _]]]]. eauto. }
+  destruct Hr as [r [Er Rn]]. exists idb, r, (t_db t'), (rev (t_log t')).
+  split; [exact Hid|]. split; [exact Er|].
+  assert (Hrun : run_op None None now (s_db st) (OAdd w) = (t_db t', Committed, rev (t_log t'))) by (unfold run_op; rewrite Ht'; reflexivity).
+  split; [exact Hrun|]. split; [|exact Rn]. unfold writer_step. rewrite Q. cbn [s_db]. unfold db_after. rewrite Hrun. reflexivity.
+Qed.
+(* what an acknowledgement OK=true of a non-ephemeral event means for the shared state *)
+Theorem C06_kv_ack_true_queued now st raw b st' : submit valid now st raw = (AckTrue, b, st') ->
+  is_ephemeral_kind (w_kind (ctor now raw)) = false ->
+  b = true /\ s_queue st' = s_queue st ++ [OAdd (ctor now raw)] /\ s_db st' = s_db st.
+Proof.
+  unfold submit. destruct (add_event valid now (s_db st) (s_inflight st) raw) as [[a0 b0] q] eqn:E. intros H Eph.
+  unfold add_event in E. destruct (valid _); simpl in E; [|injection E as <- _ _; destruct q as [[]|]; discriminate].
+  rewrite Eph in E. destruct (storable _); simpl in E; [|injection E as <- _ _; destruct q as [[]|]; discriminate].
+  destruct (id_bytes _); [|injection E as <- _ _; destruct q as [[]|]; discriminate].
+  destruct (mem_str _ _); [injection E as <- _ _; destruct q as [[]|]; discriminate|].
+  destruct (get _ _) as [[|r]|]; injection E as <- <- <-; try discriminate; injection H as <- <-; auto.
 Qed.
 End Ack.
 
-(* ---- the residual classes (open findings) on a concrete event ---- *)
+(* ---- the residual class (open finding): classifier and witness ---- *)
+(* the engine fails or the process dies inside the writer's transaction *)
+Definition kv_engine_failure_after_ack (fault kill : option nat) : bool :=
+  match fault, kill with None, None => false | _, _ => true end.
+
 Definition ex_event : wevent :=
   {| w_id := repeat 97%N 64; w_pubkey := repeat 98%N 64; w_created := 100; w_kind := 1;
      w_tags := [[pys "t"; pys "x"]]; w_content := pys "hi"; w_sig := repeat 99%N 128 |}.
-
-(* kv_engine_failure_after_ack: acknowledged, then the engine fails at the first mutation: nothing stored *)
+(* acknowledged, then the engine fails at the first mutation: nothing stored (the full statement
+   "OK=true -> stored once the writer is idle" fails for fault <> None) *)
 Theorem C06_kv_ack_true_stored_refuted_engine_failure :
-  add_event (fun _ => true) 1000 init_db ex_event = (AckTrue, true, Some (OAdd ex_event)) /\
+  add_event (fun _ => true) 1000 init_db [] ex_event = (AckTrue, true, Some (OAdd ex_event)) /\
+  kv_engine_failure_after_ack (Some 0%nat) None = true /\
   db_after (Some 0%nat) None 1000 init_db (OAdd ex_event) = init_db.
-Proof. split; vm_compute; reflexivity. Qed.
-(* kv_duplicate_in_flight: the same event submitted again before the writer ran: acknowledged true and broadcast twice *)
-Theorem C06_kv_duplicate_refuted_in_flight :
-  add_event (fun _ => true) 1000 init_db ex_event = (AckTrue, true, Some (OAdd ex_event)) /\
-  (* second submission, writer still idle on the same store *)
-  add_event (fun _ => true) 1000 init_db ex_event = (AckTrue, true, Some (OAdd ex_event)) /\
-  (* the writer then stores it once: the second queued add is skipped *)
-  let d1 := db_after None None 1000 init_db (OAdd ex_event) in
-  db_after None None 1000 d1 (OAdd ex_event) = d1.
 Proof. repeat split; vm_compute; reflexivity. Qed.
+(* the same event submitted again before the writer ran: a duplicate (was acknowledged twice before 11f39ac) *)
+Example C06_kv_in_flight_duplicate_example :
+  let '(a1, b1, st1) := submit (fun _ => true) 1000 (mkS init_db [] []) ex_event in
+  let '(a2, b2, st2) := submit (fun _ => true) 1000 st1 ex_event in
+  (a1, b1, a2, b2, length (s_queue st2)) = (AckTrue, true, AckDuplicate, false, 1%nat).
+Proof. vm_compute. reflexivity. Qed.
